@@ -262,6 +262,14 @@ def run_ops(label, ctor, ops, scratch):
                 twin['a' if 'json' not in label else 'zz'] = 12345
                 if (a == twin) and not null and ref.get('a' if 'json' not in label else 'zz') != 12345:
                     problems.append({'step': i, 'op': op, 'what': '== is True for archives with different contents'})
+                # same size, same values, ONE key renamed - in particular a key whose value is None
+                nk = [kk for kk in ref if ref[kk] is None] or list(ref)
+                if nk and not null:
+                    twin2 = ctor(scratch.new(''))
+                    other_key = 'zz9' if 'zz9' not in ref else 'zz8'
+                    twin2.update(dict((other_key if kk == nk[0] else kk, vv) for kk, vv in ref.items()))
+                    if (a == twin2) or not (a != twin2):
+                        problems.append({'step': i, 'op': op, 'what': '== is True for archives that differ in one key (%r holds %r on one side, %r on the other)' % (nk[0], ref[nk[0]], other_key)})
             elif k == 'copy':
                 newname = scratch.new('')
                 if label.startswith('file'):
